@@ -129,6 +129,10 @@ def main():
             program(m, [], BASE_DECLS, [], BASE_RULES + ['#[frobnicate]']),
             program(m, [], BASE_DECLS, [], BASE_RULES), 'unexpected attribute')
     for m in ('ascent', 'ascent_par'):
+        # attributes with nothing at all after them (the attributes ahead of the optional struct signature)
+        add('attr_only', 'x', m, '   ascent::%s! {\n      #[frobnicate]\n   }\n' % m, '   ascent::%s! {\n   }\n' % m, 'unexpected attribute')
+        add('attr_only_after_inner', 'x', m, '   ascent::%s! {\n      #![measure_rule_times]\n      #[frobnicate]\n   }\n' % m,
+            '   ascent::%s! {\n      #![measure_rule_times]\n   }\n' % m, 'unexpected attribute')
         add('sig_name_mismatch', 'x', m,
             '   ascent::%s! {\n      pub struct WA; impl WB;\n%s%s   }\n' % (m, ''.join('      %s\n' % d for d in BASE_DECLS), ''.join('      %s\n' % r for r in BASE_RULES)),
             '   ascent::%s! {\n      pub struct WA; impl WA;\n%s%s   }\n' % (m, ''.join('      %s\n' % d for d in BASE_DECLS), ''.join('      %s\n' % r for r in BASE_RULES)),
